@@ -221,15 +221,23 @@ def run_job(scr: Scratch, worker: int, j: Job, procs: dict) -> Result:
     res.log = logp
     parse_log(text, res)
     classify(res, text, timed_out)
-    if res.status == "failed":
-        # second run of the same harness with concrete playback, only to obtain the counterexample's input values
-        # (kept out of the first run: trace generation costs minutes and gigabytes on the larger harnesses)
-        text2, to2 = _run(base[:2] + ["-Z", "concrete-playback", "--concrete-playback=print"] + base[2:], scr, j, procs, logp + ".cex", j.timeout)
-        r2 = Result(job=j)
-        parse_log(text2, r2)
-        res.cex = r2.cex
-        res.cex_all = r2.cex_all
-        res.wall_s = time.time() - t0
+    res.tdir = tdir
+    return res
+
+
+def playback(scr, res):
+    """second run of a failed harness with concrete playback, only to obtain the counterexample's input values (kept out of the first
+    run: trace generation costs minutes and gigabytes on the larger harnesses)"""
+    j = res.job
+    tdir = getattr(res, "tdir", scr.worker_dir(0))
+    base = ["cargo", "kani", "-Z", "concrete-playback", "--concrete-playback=print", "-Z", "stubbing", "--exact", "--harness", "gen::" + j.hname, "--target-dir", tdir]
+    t0 = time.time()
+    text2, to2 = _run(base, scr, j, {}, res.log + ".cex", j.timeout)
+    r2 = Result(job=j)
+    parse_log(text2, r2)
+    res.cex = r2.cex
+    res.cex_all = r2.cex_all
+    res.wall_s += time.time() - t0
     return res
 
 
